@@ -183,6 +183,18 @@ def ob_native():
         P2, mu2 = doWF(g[perm], Pt, nv, Es)
         if (not (np.abs(P2 - P[perm]).max() <= tol)) or (not (abs(mu2 - mu) <= 1e-9 * abs(mu))):
             return {"permutation": perm.tolist(), "P2": P2.tolist(), "P[perm]": P[perm].tolist()}
+        # the returned allocation belongs to the caller: using it up in place (a receiver normalises it, takes square roots, ...) and
+        # asking again for the same problem gives the same answer as the first time; the gain array is not touched either
+        keepP, keepg = P.copy(), g.copy()
+        Pa, mua = doWF(g, Pt, nv, Es)
+        np.sqrt(np.abs(Pa), out=Pa)
+        Pa *= 3.0
+        Pb, mub = doWF(g, Pt, nv, Es)
+        Pb[...] = -1.0
+        Pc, muc = doWF(g.copy(), Pt, nv, Es)
+        if (not np.array_equal(Pc, keepP)) or (not (muc == mu)) or (not np.array_equal(P, keepP)) or (not np.array_equal(g, keepg)):
+            return {"a result used up in place by the caller changed a later answer / an earlier result": True,
+                    "first": keepP.tolist(), "first array now": P.tolist(), "asked again": Pc.tolist()}
         c0 = cap(g, Es, nv, P)
         for _ in range(20):
             if len(g) < 2:
